@@ -167,3 +167,15 @@ func (p *Pool) Put(g *GBuf) {
 }
 
 func (g *GBuf) placeKey() int { return g.place }
+
+// OverCap returns the same bytes as B with a CAPACITY that reaches over the inaccessible page
+// behind an end-abutting buffer (a slice of a larger mapping whose tail was protected later:
+// len ends at the last accessible byte, cap does not). Code that appends to an argument, or
+// reslices it up to its capacity, faults at the first byte. Only meaningful for PlaceEnd.
+func (g *GBuf) OverCap() []byte {
+	if g.place != PlaceEnd {
+		return g.B
+	}
+	lo := g.ps + g.lo
+	return g.region[lo : lo+len(g.B) : lo+len(g.B)+g.ps]
+}
